@@ -170,6 +170,9 @@ type chanCore struct {
 	closed bool
 	nops   int
 	native reflect.Value // valid => channel owned by un-instrumented code
+	// the same native channel as a value that can be received from / sent to (a channel first met through a
+	// `chan<- T` parameter is send-only as a reflect.Value, whatever the variable it came from allows)
+	nativeR, nativeS reflect.Value
 }
 
 type Case struct {
@@ -395,11 +398,24 @@ func (s *Sched) core(c interface{}) *chanCore {
 		return nil
 	}
 	if cc, ok := s.chans[p]; ok {
+		if cc.native.IsValid() {
+			cc.seeNative(reflect.ValueOf(c))
+		}
 		return cc
 	}
 	cc := &chanCore{id: fmt.Sprintf("native%d", len(s.chans)), native: reflect.ValueOf(c)}
+	cc.seeNative(cc.native)
 	s.chans[p] = cc
 	return cc
+}
+
+func (c *chanCore) seeNative(v reflect.Value) {
+	if v.Type().ChanDir()&reflect.RecvDir != 0 {
+		c.nativeR = v
+	}
+	if v.Type().ChanDir()&reflect.SendDir != 0 {
+		c.nativeS = v
+	}
 }
 
 func MakeChan[T any](n ...int) chan T {
@@ -895,7 +911,10 @@ func (s *Sched) sendersOn(c *chanCore, except *G) (out []trans) {
 }
 
 func nativeReady(c *chanCore) (interface{}, bool, bool) {
-	i, v, ok := reflect.Select([]reflect.SelectCase{{Dir: reflect.SelectRecv, Chan: c.native}, {Dir: reflect.SelectDefault}})
+	if !c.nativeR.IsValid() {
+		return nil, false, false
+	}
+	i, v, ok := reflect.Select([]reflect.SelectCase{{Dir: reflect.SelectRecv, Chan: c.nativeR}, {Dir: reflect.SelectDefault}})
 	if i == 1 {
 		return nil, false, false
 	}
@@ -1084,7 +1103,11 @@ func (s *Sched) perform(t trans) []*G {
 						o.panicV = r
 					}
 				}()
-				c.native.Close()
+				if c.nativeS.IsValid() {
+					c.nativeS.Close()
+				} else {
+					c.native.Close()
+				}
 			}()
 			g.note(s, "close:"+c.id)
 			break
@@ -1224,7 +1247,7 @@ func (s *Sched) perform(t trans) []*G {
 						o.panicV = r
 					}
 				}()
-				if !c.native.TrySend(reflect.ValueOf(o.val)) {
+				if !c.nativeS.IsValid() || !c.nativeS.TrySend(reflect.ValueOf(o.val)) {
 					s.fatal(g, "vrt: blocking send on a native channel is not modelled")
 				}
 			}()
